@@ -102,8 +102,8 @@ def run(ctx):
             okc, v = const_str(ctx, ed.module, c.args[2])
             if okc:
                 sufs.add(v)
-            else:
-                r1.fail("EntityDeclaration:bind destination", "destination suffix is a literal", ed.methods["xml_bindings"].loc(c))
+            # (a suffix computed from a table is judged by evaluation: C02.R10 / C19.R1 require every bind target to be
+            # an attribute or child the entity node has)
     allowed = {"/@id", "/@create", "/@update", "/@baseVersion", "/@trunkVersion", "/@branchId", "/label"}
     r1.check(bool(sufs) and sufs <= allowed, "EntityDeclaration:suffixes", f"entity bind suffixes are within {sorted(allowed)}", ed.module.relpath,
              why_fail=f"got {sorted(sufs)}")
